@@ -570,7 +570,7 @@ func runC13Wide(r *core.Run) {
 // an error at one level (every level for small depths, else top / middle / bottom) the visit sequence must be the model's.
 func runC13Deep(r *core.Run) {
 	maxD := core.Pick(r, 300, 3000)
-	s := r.Sub("deep-chains", fmt.Sprintf("for EVERY depth d = 1..%d: a chain of d nested containers (block quotes, list items and emphasis nodes in turn), each holding a text leaf before and after the next level; the unscripted Walk and Walks whose visitor answers SkipChildren / Stop / error on entering, or Stop / error on leaving, the container at one level (every level for d <= 12, else levels 1, d/2, d-1, d): visit sequence and returned error equal the model walk", maxD))
+	s := r.Sub("deep-chains", fmt.Sprintf("for EVERY depth d = 1..%d: a chain of d nested containers (block quotes, list items and emphasis nodes in turn), each holding a text leaf before and after the next level; the unscripted Walk and Walks whose visitor answers SkipChildren / Stop / error on entering, or Stop / error on leaving, the container at one level (every level for d <= 12, else levels 1, d/2, d-1, d): visit sequence and returned error equal the model walk; after a Walk whose visitor panics (recovered by the caller) the next Walk of another tree and of the same tree is unaffected", maxD))
 	errX := fmt.Errorf("walker error")
 	core.ForEachIndex(maxD, core.Workers(), func(w int) func(int) {
 		return func(di int) {
@@ -681,6 +681,42 @@ func runC13Deep(r *core.Run) {
 					hist := []string{fmt.Sprintf("chain of depth %d", d), fmt.Sprintf("walker script: level=%d onExit=%v answer=%v err=%v", sc.level, sc.onExit, sc.ans, sc.err)}
 					s.Violate("walk-differs-from-model:deep", "", nil, hist, fmt.Sprintf("Walk produced %d events (err=%v), the model %d (err=%v)", len(got), gotErr, len(want), wantErr), "", "")
 					return
+				}
+			}
+			// a walker that panics (the caller recovers): the next Walk, of another tree and of this one, is unaffected
+			for l := range levels {
+				func() {
+					defer func() { _ = recover() }()
+					_ = ast.Walk(root, func(n ast.Node, entering bool) (ast.WalkStatus, error) {
+						if n == conts[l] && entering {
+							panic("walker panic")
+						}
+						return ast.WalkContinue, nil
+					})
+				}()
+				other := ast.NewParagraph()
+				other.AppendChild(other, ast.NewText())
+				other.AppendChild(other, ast.NewEmphasis(1))
+				for _, tr := range []ast.Node{other, root} {
+					var want, got []ev
+					_, _ = model(tr, script{level: -1}, &want)
+					_ = ast.Walk(tr, func(n ast.Node, entering bool) (ast.WalkStatus, error) {
+						got = append(got, ev{n, entering})
+						if len(got) > 4*len(want)+16 {
+							return ast.WalkStop, nil
+						}
+						return ast.WalkContinue, nil
+					})
+					s.Evals.Add(1)
+					same := len(got) == len(want)
+					for i := 0; same && i < len(got); i++ {
+						same = got[i] == want[i]
+					}
+					if !same {
+						s.Violate("walk-differs-from-model:after-walker-panic", "", nil, []string{fmt.Sprintf("chain of depth %d", d), fmt.Sprintf("Walk whose visitor panics on entering level %d (recovered by the caller)", l), "Walk of another tree / of the same tree"},
+							fmt.Sprintf("Walk produced %d events, the model %d", len(got), len(want)), "", "")
+						return
+					}
 				}
 			}
 			s.States.Add(1)
